@@ -37,13 +37,19 @@ Definition dispatch (f : bytes) (a : list bytes) : list bytes :=
   else if is f "lookup" then opt (dev_write (arg 0 a) (num (arg 1 a)))
   else if is f "litcheck" then litcheck (text_file a) 0 a
   else if is f "haschanged" then
-    (* v1 f1 k1 v2 f2 k2 nlit1 nexp1 nlit2 nexp2 lits1.. exprs1.. lits2.. exprs2.. *)
-    let rest := skipn 10 a in
+    (* v1 f1 k1 v2 f2 k2 nlit1 nexp1 nlit2 nexp2 skel1 skel2 lits1.. exprs1.. lits2.. exprs2..
+       reply: HasChanged (with the skeleton comparison); the criterion of before 75525d5 *)
+    let rest := skipn 12 a in
     let nl1 := num (arg 6 a) in let ne1 := num (arg 7 a) in let nl2 := num (arg 8 a) in let ne2 := num (arg 9 a) in
-    let p := {| g_opts := opts (arg 0 a) (arg 1 a) (arg 2 a); g_literals := firstn nl1 rest; g_exprs := firstn ne1 (skipn nl1 rest) |} in
+    let p := {| g_opts := opts (arg 0 a) (arg 1 a) (arg 2 a); g_literals := firstn nl1 rest; g_exprs := firstn ne1 (skipn nl1 rest); g_skel := arg 10 a |} in
     let rest2 := skipn (nl1 + ne1) rest in
-    let u := {| g_opts := opts (arg 3 a) (arg 4 a) (arg 5 a); g_literals := firstn nl2 rest2; g_exprs := firstn ne2 (skipn nl2 rest2) |} in
-    [b2 (has_changed p u)]
+    let u := {| g_opts := opts (arg 3 a) (arg 4 a) (arg 5 a); g_literals := firstn nl2 rest2; g_exprs := firstn ne2 (skipn nl2 rest2); g_skel := arg 11 a |} in
+    [b2 (has_changed bytes_eqb p u); b2 (expr_list_criterion p u)]
+  else if is f "skeleton" then
+    (* the generated code.  reply: skel_of_code; is the file a well-formed program of lines (wf_code);
+       then the literals of its WriteString lines in order *)
+    let c := arg 0 a in
+    skel_of_code c :: b2 (wf_code c) :: op_lits (ops_of_code c)
   else [bs "?"].
 
 Extraction "model.ml" dispatch.
